@@ -175,6 +175,19 @@ fn nb_matchers() {
     let mut cases = 0u64;
     let lits: [&'static str; 6] = ["a", "é", "a*", "€", "😀a", ""];
     macro_rules! fail { ($($t:tt)*) => {{ println!("NB-RESULT name=nb_matchers status=fail cases={} key={}", cases, format!($($t)*)); return; }} }
+    // every pair of ASCII characters: match_string is byte equality, match_insensitive is equality after folding A-Z only
+    let ascii: Vec<String> = (0u8..128).map(|c| (c as char).to_string()).collect();
+    let ascii: &'static Vec<String> = Box::leak(Box::new(ascii));
+    for c1 in 0u8..128 { for c2 in 0u8..128 {
+        cases += 1;
+        let inp = format!("x{}y", c1 as char);
+        let lit: &'static str = ascii[c2 as usize].as_str();
+        let fold = |b: u8| if (b'A'..=b'Z').contains(&b) { b + 32 } else { b };
+        let mut i = Span::new(&inp, 1, 3).unwrap().as_input(); let r = i.match_insensitive(lit);
+        if r != (fold(c1) == fold(c2)) || i.byte_offset() != 1 + r as usize { fail!("s={:?},span=1..3,cursor=1,lit={:?} detail=match_insensitive returned {} and moved to {}", inp, lit, r, i.byte_offset()) }
+        let mut i = Span::new(&inp, 1, 3).unwrap().as_input(); let r = i.match_string(lit);
+        if r != (c1 == c2) || i.byte_offset() != 1 + r as usize { fail!("s={:?},span=1..3,cursor=1,lit={:?} detail=match_string returned {} and moved to {}", inp, lit, r, i.byte_offset()) }
+    } }
     for s in strings(3) {
         let bs = boundaries(&s);
         for &a in &bs { for &b in &bs { if a > b { continue; }
@@ -208,5 +221,5 @@ fn nb_matchers() {
             }
         } }
     }
-    println!("NB-RESULT name=nb_matchers status=ok cases={} key=- detail=at_start, at_end, next, match_range, match_char_by, match_string, match_insensitive on all strings<=3 chars over 1-4-byte chars x all spans x 3 cursors", cases);
+    println!("NB-RESULT name=nb_matchers status=ok cases={} key=- detail=at_start, at_end, next, match_range, match_char_by, match_string, match_insensitive on all strings<=3 chars over 1-4-byte chars x all spans x 3 cursors, plus match_string / match_insensitive on all 128x128 pairs of ASCII characters", cases);
 }
